@@ -115,7 +115,8 @@ class Gen(object):
 
         def content():
             n = r.choice([1, 1, 2, 3, 6])
-            s = "".join(r.choice('abc xyz\t"\\#,\u00e9{}:') for _ in range(n))
+            # incl. Unicode spaces, which are NOT WhiteSpace for the specification's BlockStringValue (only tab and space)
+            s = "".join(r.choice('abc xyz\t"\\#,\u00e9{}:\u00a0\u3000\u2003') for _ in range(n))
             s = s.replace('""', '"x')
             if not s.strip(" \t"):
                 s += "w"
